@@ -50,6 +50,34 @@ func hasInvalidUTF8(v reflect.Value, depth int) bool {
 	return false
 }
 
+// fixInvalidUTF8 replaces every settable string that is not valid UTF-8.
+func fixInvalidUTF8(v reflect.Value, depth int) {
+	if depth > 8 {
+		return
+	}
+	switch v.Kind() {
+	case reflect.String:
+		if v.CanSet() && !utf8.ValidString(v.String()) {
+			v.SetString("x")
+		}
+	case reflect.Ptr, reflect.Interface:
+		if !v.IsNil() {
+			fixInvalidUTF8(v.Elem(), depth+1)
+		}
+	case reflect.Struct:
+		if v.Type().String() == "time.Time" {
+			return
+		}
+		for i := 0; i < v.NumField(); i++ {
+			fixInvalidUTF8(v.Field(i), depth+1)
+		}
+	case reflect.Slice, reflect.Array:
+		for i := 0; i < v.Len(); i++ {
+			fixInvalidUTF8(v.Index(i), depth+1)
+		}
+	}
+}
+
 // C07: anything Decode accepts can be re-encoded; one round trip is a fixpoint.
 func runC07(c *Ctx) {
 	p := exportProfile()
@@ -186,10 +214,26 @@ func runC07(c *Ctx) {
 			ev, out := p.runEncode(id, cur, arch)
 			ev.Note = fmt.Sprintf("%s: Encode of generation %d (%s)", notes[i], gen-1, ev.Note)
 			if ev.Ret.Err == 1 || ev.Ret.Panic == 1 {
+				// classified by cause, not by the wording of the error: the recorded
+				// finding is "the File holds a string that is not valid UTF-8, and that
+				// alone makes Encode fail" - checked by encoding the same File again
+				// with those strings replaced
 				sig := encodeFailureSig(ev)
-				if sig == "encode-fails:invalid UTF-8 string" && !hasInvalidUTF8(reflect.ValueOf(cur), 0) {
-					// the known finding is about strings that are not UTF-8 in the decoded File; this one has none
-					sig = "encode-fails:a valid UTF-8 string is refused"
+				if ev.Ret.Panic == 0 {
+					if hasInvalidUTF8(reflect.ValueOf(cur), 0) {
+						fixInvalidUTF8(reflect.ValueOf(cur), 0)
+						if cont, _ := container(cur); cont != nil {
+							fixInvalidUTF8(reflect.ValueOf(cont), 0)
+						}
+						if ev2, _ := p.runEncode(0, cur, arch); ev2.Ret.Err == 0 && ev2.Ret.Panic == 0 {
+							sig = "encode-fails:invalid UTF-8 string"
+						} else if sig == "encode-fails:invalid UTF-8 string" {
+							sig = "encode-fails:" + firstWords(ev.Ret.ErrText)
+						}
+					} else if sig == "encode-fails:invalid UTF-8 string" {
+						// the known finding is about strings that are not UTF-8 in the decoded File; this one has none
+						sig = "encode-fails:a valid UTF-8 string is refused"
+					}
 				}
 				c.report(sig, fmt.Sprintf("Encode of a decoded File fails (%s): %s%s", ev.Note, ev.Ret.ErrText, ev.Ret.PanicMsg), map[string]interface{}{"input": toInts(x), "encode": ev})
 				break
